@@ -101,6 +101,14 @@ CHECKS = [
               'runs on a representative, the checker code beartype generates for the inferred hint is translated, and the solver '
               'shows that every object of that shape is accepted for every draw and payload and satisfies the inferred hint at full '
               'depth. The recursion-warning clause is not claimed.'),
+    dict(id='C07', engine='G', cat='translation_validation', ref='4/C07',
+         technique='SMT equivalence (XOR unsat) between the wrapper generated for a string / postponed / defined-later annotation and the wrapper for the evaluated annotation',
+         text='Partial claim: for each enumerated (hint text x placement in {module, method, nested-class method, closure, closure in a method} '
+              'x form in {string literal, from __future__ import annotations, name defined after the callable}) a module is written and '
+              'imported with the real decorator; both wrappers are captured, forward-reference proxies are resolved through their real '
+              '__instancecheck__, and the solver shows the parameter and return guards equivalent to those of the evaluated form for all '
+              'objects and draws. The call-before-definition clause (forward-reference exception, usable once defined) is driven '
+              'concretely for module and closure placements.'),
     dict(id='C09', engine='G', cat='translation_validation', ref='4/C09',
          technique='SMT (z3) cost term over item-reading AST nodes with unbounded symbolic container length',
          text='Fast path: the translator attaches a cost to every item read (x[i], next(iter(x)), mapping lookups; len for '
@@ -121,7 +129,6 @@ NOT_APPLICABLE = [
 ]
 
 PENDING = [
-    ('C07', 'planned (Engine G, partial); not yet built in this commit'),
     ('C13', 'planned (Engine G, partial); not yet built in this commit'),
     ('C14', 'planned (Engine G, partial); not yet built in this commit'),
 ]
